@@ -8,6 +8,15 @@ CHECKS = {
    text="TLC checks clauses R1-R7 of L4RouterAbs on every state of the code-shaped model of RouteList.Compile (all route lists of a bounded grammar x all streams x all read schedules), every terminal behaviour is replayed on the real Provision+Compile with scripted matchers/handlers and the real subroute/not modules and must be identical to the TLC-checked prediction or is judged individually by TLC; seeded random larger instances recorded from the real code are validated by TLC against the same operators.",
    note="trusts TLC, the scripted net.Conn / matchers / handlers of the harness, Caddy's module loader; matchers are abstracted as monotone threshold/position matchers",
    technique="TLA+ model of the routing loop checked with TLC; behaviour replay + trace validation against the real router"),
+
+ "C05": dict(level="model_checking", design="5 C05, 3.4",
+   text="Untimed half: clauses D1-D3/B1-B2/R4 (deadline armed for every matching read, cleared before handlers, abort only with cause, buffer bound, nothing after abort) checked by TLC on every state of the router model and on all replayed/recorded real histories. Timed half: TLC checks NotEarly/NotLate on the timed deadline model and validates, against clauses TE/TL/TC/TB/TH, timed traces of the real Server.handle (loopback TCP) and servePacket (loopback UDP) for a TLC-enumerated grid of send schedules x timeouts (40..1500 ms) x wall-clock phases.",
+   note="scaled real time with one-sided tolerances (2 ms early, max(250 ms,25%) late); disturbed runs are repeated, then inconclusive; trusts Go timers and the loopback stack",
+   technique="TLA+ router + timed deadline models checked with TLC; timed trace validation of the real TCP/UDP matching phase"),
+ "C09": dict(level="model_checking", design="5 C09, 4.4",
+   text="TLC checks NoCrash/NoStaleDelete/OwnClientOnly/InOrder on the code-shaped model of servePacket<->packetConn (all interleavings of 2 clients, 5 datagrams, 4 associations, scaled channel capacities) and, as a vacuity self-test, that the same invariants fail on the pinned-commit protocol. The real loop runs behind a scripted PacketConn in a child process for a TLC-enumerated grid of bursts (clients x datagrams x handler read counts x sizes x reader buffer sizes x pacing); a panic is a violation; recorded histories are validated by TLC against clauses U0-U4 of L4UdpAbs.",
+   note="free-running goroutines (no forced interleavings yet); the 30 s idle expiry path is covered by the model only; event order is recording order under one lock",
+   technique="TLA+ model of the UDP demultiplexing goroutines checked with TLC; trace validation of the real servePacket loop"),
 }
 NA = {
 }
